@@ -8,6 +8,7 @@ get_path() + the same sliced / projected indices reports the same) is required.
 """
 from . import _hist
 from .. import mc, tla
+from . import _repo
 
 LEVEL = "model_checking"
 
@@ -35,6 +36,7 @@ def design_level(run):
 def run(run):
     design_level(run)
     _hist.run_histories(run, "figures", f"c04_{run.tier}")
+    _repo.run_repo_traces(run, "figures", "c04")
     run.cov["rule"] = ("histories = TLC behaviours of spec/Tree.tla concretised to the public operations; distinct by "
                        "(network, initial tree, concrete operation sequence); after every step every reported figure is "
                        "compared with its definition by TLC and with a from-scratch rebuild")
